@@ -77,7 +77,13 @@ def shard(binpath, seed, sh, n):
         g = []
         for sp, tx in texts.items():
             g.append(len(cases))
-            cases.append({"op": "serde", "type": t, "text": tx, "meta": {"spelling": sp, "valid": bool(i % 4)}})
+            c = {"op": "serde", "type": t, "text": tx, "meta": {"spelling": sp, "valid": bool(i % 4)}}
+            if i % 7 == 0:
+                # history: an earlier decode on the same thread read part of ANOTHER document and then hit an I/O error
+                other = json.dumps(corpus.gen_valid(rng, W)[1], ensure_ascii=False)
+                c["broken_first"] = {"text": other, "ok": rng.randrange(1, max(2, len(other.encode())))}
+                c["meta"]["after_io_error"] = True
+            cases.append(c)
         groups.append(g)
         if i % 3 == 0:
             # text-level variants around the document: each is judged on its own (one outcome over all channels)
@@ -108,6 +114,8 @@ def shard(binpath, seed, sh, n):
         if len(vals) > 1:
             res.violate(f"spelling-dependent-value:{c0['type']}", f"spellings of the same {c0['type']} decode to different values", c0, None, "one value")
         cls = [f"type:{c0['type']}", ("valid:" if c0["meta"]["valid"] else "mutated:") + "+".join(sorted(classes))]
+        if any(cases[ci]["meta"].get("after_io_error") for ci in g):
+            cls.append("history:after_failed_read:" + "+".join(sorted(classes)))
         if c0["meta"].get("textmut"):
             cls.append(f"text:{c0['meta']['textmut']}:" + "+".join(sorted(classes)))
         if "ok" in classes and len(classes) == 1:
@@ -148,5 +156,5 @@ def main(ctx):
         assumptions=["serde_json::Value parsing defines 'the same content' for a spelling"],
         required=[f"all_channels_agree_ok:{t}" for t in ("metablock", "layout", "link", "pubkey", "rule", "step", "inspection", "statement", "predicate")] +
                  ["contains_rules:ok", "contains_timestamp:ok", "mutated:err", "text:trailing_bracket:err", "text:two_documents:err",
-                  "text:trailing_whitespace:ok", "text:leading_whitespace:ok", "text:truncated:err"],
+                  "text:trailing_whitespace:ok", "text:leading_whitespace:ok", "text:truncated:err", "history:after_failed_read:ok"],
         min_evals=10000)
